@@ -226,7 +226,9 @@ def dumpColumns (o : DumpOpts) : List String :=
         | none => []
         | some fs => fs.map (· ++ "1") ++ fs.map (· ++ "2"))
 
-/-- the header line: printed with the first chunk, so only when the engine has a chunk at all -/
+/-- the header line: printed with the first chunk, so only when the engine has a chunk at all (a
+selection whose rows hold no stored pixel has no span under the real `get_spans`, hence no header even
+with `-H`: header presence without data rows depends on the free unit `spansOf`) -/
 def dumpHeader {α : Type} (s : Store α) (spansOf : Box → List (Nat × Nat)) (o : DumpOpts) :
     Option (List String) :=
   match engineChunks s spansOf o with
@@ -278,7 +280,10 @@ def sortNat : List Nat → List Nat
 
 /-- the pandas primitive `read_csv(usecols=U, names=N)` on one line: `U` is a SET of column numbers;
 the selected columns are taken in ASCENDING column order and `N` is assigned to them in that order.
-Repeated numbers (fewer columns than names) and numbers past the end of the line are `ValueError`s. -/
+Numbers past the end of the line are a `ValueError`.  Repeated numbers (fewer columns than names) are
+refused here too; pandas then either raises or — when the line happens to have exactly as many columns
+as there are names — labels the file's columns instead and a field goes missing: not injective, outside
+the property's domain, only "no record is produced" is compared. -/
 def pandasReadCols {β : Type} (usecols : List Nat) (names : List String) (row : List β) :
     Except Err (List (String × β)) :=
   if ¬ usecols.Nodup ∨ usecols.length ≠ names.length then .error .value
